@@ -175,8 +175,8 @@ def eval_cases(ctx, descs):
       con = tfl.pwl_calibration_layer.NaiveBoundsConstraints(lower_bound=d["lo"], upper_bound=d["hi"])
       o = [float(v) for v in con(tf.constant(d["w"], dtype=tf.float64)).numpy()]
       fail = None
-      if d["lo"] is not None and d["hi"] is not None and d["lo"] <= d["hi"]:
-        if min(o) < d["lo"] or max(o) > d["hi"]:
+      if d["lo"] is None or d["hi"] is None or d["lo"] <= d["hi"]:
+        if (d["lo"] is not None and min(o) < d["lo"]) or (d["hi"] is not None and max(o) > d["hi"]):
           fail = "missing-output value outside the bounds"
       cases.append(Case(d, coq="CNaive %s %s %s %s" % (copt(d["lo"]), copt(d["hi"]), cql(d["w"]), cql(o)),
                         pred_fail=fail, nontrivial=o != d["w"], klass="naive"))
